@@ -9,7 +9,7 @@ import (
 )
 
 func init() {
-	Explanations["C03"] = "Decides structural necessary conditions of 'every durable commit point reopens to a consistent chain' (ordering and ownership of the durability point): (R1) the database's Flush is invoked only by DBStore.Flush and the caching wrapper; DBStore.Flush (or a wrapper method around it) is invoked only from DBStore.ApplyBlock/RevertBlock, store constructors and the migration they call; Store.Flush only by the tip walker; (R2) in DBStore.ApplyBlock/RevertBlock no bucket write is reachable after a flush point, so a commit only ever happens at a block boundary; (R3) in the Manager's apply step the state and block(+supplement) of the block are stored before Store.ApplyBlock on every path and no store write follows it; likewise nothing follows Store.RevertBlock; (R4) the functions that write the Height key also write/delete the best-index entry of that height and contain no flush point; (R5) every success return of the tip walker passes Store.Flush; (R6) the reopening constructor derives the tip it returns only from Height → BestIndex → State; (R7) BoltChainDB commit/rollback discipline is decided under C17.R3. (R2 also) in a store constructor no bucket write follows the block step (DBStore.ApplyBlock), which may already have committed. NOT decided: that a reopened image equals an earlier tip, catch-up equality, bbolt's own atomicity, migration (treated as initialisation)."
+	Explanations["C03"] = "Decides structural necessary conditions of 'every durable commit point reopens to a consistent chain' (ordering and ownership of the durability point): (R1) the database's Flush is invoked only by DBStore.Flush and the caching wrapper; DBStore.Flush (or a wrapper method around it) is invoked only from DBStore.ApplyBlock/RevertBlock, store constructors and the migration they call; Store.Flush only by the tip walker; (R2) in DBStore.ApplyBlock/RevertBlock no bucket write is reachable after a flush point, so a commit only ever happens at a block boundary; (R3) in the Manager's apply step the state and block(+supplement) of the block are stored before Store.ApplyBlock on every path and no store write follows it; likewise nothing follows Store.RevertBlock; (R4) the functions that write the Height key also write/delete the best-index entry of that height and contain no flush point; (R5) every success return of the tip walker passes Store.Flush; (R6) the reopening constructor derives the tip it returns only from Height → BestIndex → State; (R7) BoltChainDB commit/rollback discipline is decided under C17.R3. (R2 also) in a store constructor no bucket write follows the block step (DBStore.ApplyBlock), which may already have committed. (R7) the check of C01.R12. NOT decided: that a reopened image equals an earlier tip, catch-up equality, bbolt's own atomicity, migration (treated as initialisation)."
 
 	register(&Rule{ID: "C03.R1", Prop: "C03", Floor: 5, Doc: "who may flush: the durability point is owned by the block-boundary functions", Run: c03r1})
 	register(&Rule{ID: "C03.R2", Prop: "C03", Floor: 2, Doc: "flush last: no bucket write after a flush point inside DBStore.ApplyBlock/RevertBlock", Run: c03r2})
